@@ -7,52 +7,82 @@ theorem forall_u8 {P : UInt8 → Prop} (h : ∀ n, n < 256 → P (UInt8.ofNat n)
   have := h c.toNat c.toNat_lt
   simpa using this
 
-/-- per-byte fact behind the quoting round trip. -/
-def byteOK (c : UInt8) : Bool :=
+/-- per-byte fact behind the quoting round trip (for either hex table). -/
+def byteOK (t : HexTab) (c : UInt8) : Bool :=
   if unreserved c then (c != 37 && c != 43)
   else
-    match hexVal (hexUpper (c >>> 4)), hexVal (hexUpper (c &&& 15)) with
+    match hexValT t (hexUpper (c >>> 4)), hexValT t (hexUpper (c &&& 15)) with
     | some x1, some x2 => !(x1 < 0 || x2 < 0) && (x1 * 16 + x2).toNat.toUInt8 == c
     | _, _ => false
 
-theorem byteOK_all : ∀ c, byteOK c = true := by
-  apply forall_u8
-  decide +kernel
+theorem byteOK_all (t : HexTab) : ∀ c, byteOK t c = true := by
+  cases t <;> (apply forall_u8; decide +kernel)
 
-theorem unquote_nil (p : Bool) : unquote p [] = some [] := by
+theorem unquote_nil (t : HexTab) (p : Bool) : unquote t p [] = some [] := by
   unfold unquote; rfl
 
-theorem unquote_plain (p : Bool) (c : UInt8) (rest : Bytes) (h1 : c ≠ 37) (h2 : c ≠ 43) :
-    unquote p (c :: rest) = (unquote p rest).map (c :: ·) := by
+theorem unquote_plain (t : HexTab) (p : Bool) (c : UInt8) (rest : Bytes) (h1 : c ≠ 37) (h2 : c ≠ 43) :
+    unquote t p (c :: rest) = (unquote t p rest).map (c :: ·) := by
   conv => lhs; unfold unquote
   simp [h1, h2]
 
-theorem unquote_pct (p : Bool) (h1 h2 : UInt8) (rest : Bytes) (x1 x2 : Int)
-    (e1 : hexVal h1 = some x1) (e2 : hexVal h2 = some x2) (n1 : ¬ x1 < 0) (n2 : ¬ x2 < 0) :
-    unquote p (37 :: h1 :: h2 :: rest) = (unquote p rest).map ((x1 * 16 + x2).toNat.toUInt8 :: ·) := by
+theorem unquote_pct (t : HexTab) (p : Bool) (h1 h2 : UInt8) (rest : Bytes) (x1 x2 : Int)
+    (e1 : hexValT t h1 = some x1) (e2 : hexValT t h2 = some x2) (n1 : ¬ x1 < 0) (n2 : ¬ x2 < 0) :
+    unquote t p (37 :: h1 :: h2 :: rest) = (unquote t p rest).map ((x1 * 16 + x2).toNat.toUInt8 :: ·) := by
   conv => lhs; unfold unquote
   simp [e1, e2, n1, n2]
 
-theorem unquote_quote (p : Bool) (s : Bytes) : unquote p (quote s) = some s := by
+theorem unquote_quote (t : HexTab) (p : Bool) (s : Bytes) : unquote t p (quote s) = some s := by
   induction s with
   | nil => simp [quote, unquote_nil]
   | cons c cs ih =>
-    have hb := byteOK_all c
+    have hb := byteOK_all t c
     unfold byteOK at hb
     unfold quote
     by_cases hu : unreserved c = true
     · simp only [hu, if_true] at hb ⊢
       have h1 : c ≠ 37 := by intro h; simp [h] at hb
       have h2 : c ≠ 43 := by intro h; simp [h] at hb
-      rw [unquote_plain p c _ h1 h2, ih]; rfl
+      rw [unquote_plain t p c _ h1 h2, ih]; rfl
     · simp only [hu] at hb ⊢
       simp only [Bool.false_eq_true, if_false] at hb ⊢
       split at hb
       · rename_i x1 x2 e1 e2
         simp only [Bool.and_eq_true, Bool.not_eq_true', Bool.or_eq_false_iff, decide_eq_false_iff_not,
           beq_iff_eq] at hb
-        rw [unquote_pct p _ _ _ x1 x2 e1 e2 hb.1.1 hb.1.2, ih, hb.2]; rfl
+        rw [unquote_pct t p _ _ _ x1 x2 e1 e2 hb.1.1 hb.1.2, ih, hb.2]; rfl
       · simp at hb
+
+/-- with the 256-entry table (`utils/bytesconv.go`) un-quoting is total: `decodeArgAppend` has no
+    panic point on any input. -/
+theorem unquote_full_isSome (p : Bool) : ∀ (n : Nat) (b : Bytes), b.length ≤ n →
+    (unquote .full p b).isSome = true := by
+  intro n
+  induction n with
+  | zero =>
+    intro b hb
+    have : b = [] := List.length_eq_zero_iff.mp (by omega)
+    subst this; simp [unquote_nil]
+  | succ n ih =>
+    intro b hb
+    cases b with
+    | nil => simp [unquote_nil]
+    | cons c rest =>
+      have hr : rest.length ≤ n := by simpa using hb
+      unfold unquote
+      split
+      · split
+        · rename_i h1 h2 rest'
+          have h0 := ih (h1 :: h2 :: rest') hr
+          have h3 := ih rest' (by simp only [List.length_cons] at hr; omega)
+          simp only [hexValT]
+          split <;> simp [Option.isSome_map, h0, h3]
+        · rfl
+      · have h0 := ih rest hr
+        split <;> simp [Option.isSome_map, h0]
+
+theorem unquote_full_total (p : Bool) (b : Bytes) : (unquote .full p b).isSome = true :=
+  unquote_full_isSome p b.length b (Nat.le_refl _)
 
 /-- the quoted form never contains `&` or `=`. -/
 def quotedByteOK (c : UInt8) : Bool :=
